@@ -1238,3 +1238,5 @@ def install(tr: Translator):
     mvmodels.install(tr)
     import itermodels
     itermodels.install(tr)
+    import revm_models
+    revm_models.install(tr)
